@@ -160,4 +160,15 @@ CHECKS = {
         floors={"outcome=openfail": 0.2, "outcome=cancel": 0.2, "outcome=deadline": 0.2, "outcome=reset": 0.2},
         assumptions=COMMON_ASSUMPTIONS + ["registry sizes are read through the verif-tagged accessors VerifClientCalls / VerifServerStreams"],
     ),
+    "C20": dict(
+        level="exploration",
+        rule=("rapid-generated configurations: server chains of 1..6 interceptors (ChainUnary/StreamInterceptor, or the single-interceptor options for length 1), each with a drawn transformation (append a tag to the request / to the reply, add an incoming-metadata value, map the error, pass through) recording enter/exit; "
+              "client chains of 0..3 composed into goat's single slot (request tag, outgoing metadata); 1..3 recording stats handlers per side whose TagRPC plants a unique tag; RPC kind x outcome in {ok, handler error, caller cancel, virtual deadline, transport failure, failed open}; 1..3 RPCs per connection. "
+              "Oracle model.Chain: server interceptors and handler each entered and exited exactly once per RPC, nested in registration order; the handler sees the composed request and metadata, the caller the reverse-composed reply or mapped error; "
+              "per stats handler and RPC tag: Begin first, exactly one Begin and one End, End.Error==nil iff the RPC succeeded on that side, no event without the tag, TagRPC once per RPC (server side may see none for an RPC that never reached it); exactly one ConnBegin and ConnEnd per connection per handler. "
+              "Non-trivial = chain length >=3, or a non-ok outcome, or >=2 stats handlers on a side."),
+        jobs=[dict(test="TestC20", quick=1600, thorough=30000)],
+        floors={"outcome=cancel": 0.05, "outcome=transport": 0.05, "outcome=openfail": 0.03, "chain=6": 0.05, "single=true": 0.02},
+        assumptions=COMMON_ASSUMPTIONS + ["a caller's cancellation of a unary call is not conveyed to the server by goat (no reset for unary calls); the harness releases such handlers itself"],
+    ),
 }
